@@ -10,7 +10,7 @@ Fixpoint norec (g : G) : bool :=
   | End | Empty | Any | Just _ | OneOf _ | NoneOf _ | Select _ _ | Custom _ _ | JustCfg _ | Var _ | Skip _ => true
   | Map _ a | MapWith _ a | To _ a | Ignored a | ToSpan a | ToSlice a | Filter _ a | TryMap _ _ _ a
   | TryMapWith _ _ _ a | Validate _ _ a | OrNot a | Not a | Rewind a | Labelled _ _ a | MapErr _ a
-  | WithCtx _ a | MapCtx _ a | Memo _ a | Rec a | NestedIn a => norec a
+  | WithCtx _ a | MapCtx _ a | Memo _ a | Rec a | NestedIn a | WithState _ a => norec a
   | Then a b | IgnoreThen a b | ThenIgnore a b | PaddedBy a b | Or a b | AndIs a b
   | IgnoreWithCtx a b | ThenWithCtx a b => norec a && norec b
   | DelimitedBy a b c => norec a && norec b && norec c
@@ -532,6 +532,7 @@ Proof.
     exact (proj1 (pratt_mono _ IH IHE g ops ctx Hn1 Hn2 He n) _ _ _ _ _ Hp H).
   - (* GroupArr *) eapply (group_sem_mono _ IH IHE) in H; eauto.
   - discriminate.
+  - (* WithState *) discriminate.
   - (* Skip *) injection H as <- <-. split; [apply rle_refl | discriminate].
   - (* ExtWrap *) discriminate.
 Qed.
